@@ -16,7 +16,7 @@ def sh(cmd, **kw):
 
 def main():
     out = sys.argv[1]
-    dirs = sys.argv[2:] or sorted(glob.glob("/verif/seeded/*/"))
+    dirs = [os.path.abspath(x) for x in sys.argv[2:]] or sorted(glob.glob("/verif/seeded/*/"))
     results = {}
     if os.path.exists(out):
         results = json.load(open(out))
